@@ -100,6 +100,10 @@ pub trait Property {
     fn watchdog_s(&self) -> u64 {
         10
     }
+    /// build a case from a raw fuzzer input (libFuzzer artifact), if the property has a byte-level target
+    fn case_from_raw(&mut self, _raw: &[u8]) -> Option<Self::Case> {
+        None
+    }
 }
 
 // ---------------------------------------------------------------------------------------------
@@ -225,6 +229,11 @@ fn exec_guarded<P: Property>(p: &mut P, case: &P::Case) -> CaseOut {
             }
         }
     }
+}
+
+/// Decode under catch_unwind: a panic in a generator is a harness fault, not a worker death.
+fn decode_guarded<P: Property>(p: &mut P, t: &TapeVal) -> Result<P::Case, String> {
+    util::catch(|| p.decode(t)).map_err(|pi| format!("generator panicked: {} at {}", pi.message, pi.location))
 }
 
 fn case_seed(seed: u64, id: &str, idx: u64) -> u64 {
@@ -353,7 +362,16 @@ unsafe fn worker_main<P: Property>(p: &mut P, cfg: &RunCfg, w: usize, start_afte
         let cs = case_seed(cfg.seed, p.id(), idx);
         let tree = tape::new_tree(&shape, cs);
         let tapev = tree.current();
-        let case = p.decode(&tapev);
+        let case = match decode_guarded(p, &tapev) {
+            Ok(c) => c,
+            Err(e) => {
+                if sum.harness_faults.len() < 3 {
+                    sum.harness_faults.push(format!("case {}: {}", idx, e));
+                }
+                idx += nworkers;
+                continue;
+            }
+        };
         let o = filter(exec_guarded(p, &case), kf, p.id());
         record(shm, p, &mut sum, &o, &case);
         match &o.verdict {
@@ -364,7 +382,10 @@ unsafe fn worker_main<P: Property>(p: &mut P, cfg: &RunCfg, w: usize, start_afte
                     let (best, _iters) = tape::shrink(
                         tree,
                         |t| {
-                            let c = p.decode(t);
+                            let c = match decode_guarded(p, t) {
+                                Ok(c) => c,
+                                Err(_) => return false,
+                            };
                             match filter(exec_guarded(p, &c), kf, p.id()).verdict {
                                 Verdict::Fail { sig, .. } => sig == sig0,
                                 _ => false,
@@ -372,7 +393,7 @@ unsafe fn worker_main<P: Property>(p: &mut P, cfg: &RunCfg, w: usize, start_afte
                         },
                         1500,
                     );
-                    let bc = p.decode(&best);
+                    let bc = decode_guarded(p, &best).unwrap_or_else(|_| case.clone());
                     let bmsg = match filter(exec_guarded(p, &bc), kf, p.id()).verdict {
                         Verdict::Fail { msg, .. } => msg,
                         _ => msg.clone(),
@@ -433,6 +454,10 @@ unsafe fn spawn<P: Property>(p: &mut P, cfg: &RunCfg, w: usize, start_after: Opt
 
 /// Run one case alone in a forked child with a wall-clock budget.
 /// Returns Ok(CaseOut-ish) | Err("hang") | Err("signal N")
+fn solo_replay_path(id: &str, phase: u64, idx: u64) -> String {
+    format!("{}/{}-solo-{}-{}.json", replay_dir(), id, phase, idx)
+}
+
 unsafe fn solo<P: Property>(p: &mut P, cfg: &RunCfg, phase: u64, idx: u64, budget: Duration, kf: &KnownFindings) -> Result<Option<(String, String)>, String> {
     let mut fds = [0i32; 2];
     assert_eq!(libc::pipe(fds.as_mut_ptr()), 0);
@@ -444,13 +469,18 @@ unsafe fn solo<P: Property>(p: &mut P, cfg: &RunCfg, phase: u64, idx: u64, budge
         let case = match phase {
             0 => {
                 let tree = tape::new_tree(&p.shape(), case_seed(cfg.seed, p.id(), idx));
-                Some(p.decode(&tree.current()))
+                decode_guarded(p, &tree.current()).ok()
             }
             1 => p.fixed_cases(cfg.tier).get(idx as usize).cloned(),
             _ => None,
         };
         let mut f = std::fs::File::from_raw_fd_(fds[1]);
         if let Some(c) = case {
+            // the replay file is written *before* the case runs, so that it exists even if this process dies
+            let _ = std::fs::create_dir_all(replay_dir());
+            let v = json!({"property": p.id(), "signature": "process-death-or-hang (written before the solo re-run)", "seed": cfg.seed, "case_index": idx,
+                "case": serde_json::to_value(&c).unwrap_or(Value::Null), "rendered": p.render(&c)});
+            let _ = std::fs::write(solo_replay_path(p.id(), phase, idx), serde_json::to_string_pretty(&v).unwrap());
             let o = filter(exec_guarded(p, &c), kf, p.id());
             let s = match o.verdict {
                 Verdict::Fail { sig, msg } => json!({"sig": sig, "msg": msg}),
@@ -601,21 +631,8 @@ pub fn run<P: Property>(p: &mut P, cfg: &RunCfg) -> Outcome {
                                 if is_hang && !p.claims_termination() {
                                     inconclusive.push(format!("case {}:{} hangs (reproduced) but {} does not claim termination", phase, idx, id));
                                 } else if !failures.iter().any(|f| f.sig == sig) {
-                                    // write a replay from the regenerated case (no shrinking across processes)
-                                    let path = if phase == 0 {
-                                        let tree = tape::new_tree(&p.shape(), case_seed(cfg.seed, id, idx));
-                                        let t = tree.current();
-                                        let c = p.decode(&t);
-                                        write_replay(p, &c, Some(&t), &sig, &format!("process {} ({})", kind, why), cfg.seed, idx as i64)
-                                    } else if phase == 1 {
-                                        let fc = p.fixed_cases(cfg.tier);
-                                        match fc.get(idx as usize) {
-                                            Some(c) => write_replay(p, c, None, &sig, &format!("process {} ({})", kind, why), cfg.seed, idx as i64),
-                                            None => String::from("<none>"),
-                                        }
-                                    } else {
-                                        format!("{}/<regress #{}>", regress_dir(id), idx)
-                                    };
+                                    // the solo child wrote the replay file before running the case
+                                    let path = if phase == 2 { format!("{}/<regress #{}>", regress_dir(id), idx) } else { solo_replay_path(id, phase, idx) };
                                     failures.push(Failure { sig, msg: format!("worker process ended by {} while executing case {}", kind, idx), replay: path, case_index: idx as i64 });
                                 }
                             }
@@ -623,14 +640,7 @@ pub fn run<P: Property>(p: &mut P, cfg: &RunCfg) -> Outcome {
                         Ok(Some((sig, msg))) => {
                             // the solo run reports an ordinary failure (e.g. the worker was killed while shrinking)
                             if !failures.iter().any(|f| f.sig == sig) {
-                                let path = if phase == 0 {
-                                    let tree = tape::new_tree(&p.shape(), case_seed(cfg.seed, id, idx));
-                                    let t = tree.current();
-                                    let c = p.decode(&t);
-                                    write_replay(p, &c, Some(&t), &sig, &msg, cfg.seed, idx as i64)
-                                } else {
-                                    "<fixed>".into()
-                                };
+                                let path = solo_replay_path(id, phase, idx);
                                 failures.push(Failure { sig, msg, replay: path, case_index: idx as i64 });
                             }
                         }
@@ -816,10 +826,14 @@ fn parse_msgs(buf: &[u8], failures: &mut Vec<Failure>, agg: &mut WorkerSummary, 
 pub fn replay<P: Property>(p: &mut P, path: &str) -> i32 {
     util::install_panic_hook();
     let kf = KnownFindings::load();
-    let txt = std::fs::read_to_string(path).expect("read replay file");
-    let v: Value = serde_json::from_str(&txt).expect("parse replay file");
-    let case: P::Case = serde_json::from_value(v["case"].clone()).expect("replay file has no decodable case");
     p.setup();
+    let raw = std::fs::read(path).expect("read replay file");
+    let parsed: Option<Value> = std::str::from_utf8(&raw).ok().and_then(|t| serde_json::from_str(t).ok());
+    let case: P::Case = match parsed.and_then(|v| serde_json::from_value(v["case"].clone()).ok()) {
+        Some(c) => c,
+        // not one of our JSON replay files: a raw input saved by a fuzzer (libFuzzer artifact)
+        None => p.case_from_raw(&raw).expect("replay file is neither a JSON replay nor a raw input this property understands"),
+    };
     let o = filter(exec_guarded(p, &case), &kf, p.id());
     println!("case: {}", serde_json::to_string_pretty(&p.render(&case)).unwrap());
     match o.verdict {
